@@ -104,6 +104,10 @@ func Init(hist *Sources) {
 
 	switch hist.hpos {
 	case -1:
+		// The line accepted was the one being typed: nothing follows
+		// it, and the new line does not inherit its undo states.
+		undoHist := hist.getHistoryLineChanges()
+		undoHist[-1] = &lineHistory{}
 	case 0:
 		hist.InferNext()
 	default:
